@@ -76,6 +76,45 @@ theorem C06_nonpositive_T_rejected (d : RawData) (hpos : 0 < d.range.1) (T : Rat
     d.CpoR T = .error .outside ∧ d.HoRT T = .error .outside ∧ d.SoR T = .error .outside ∧ d.GoRT T = .error .outside :=
   d.outside_err (fun h => absurd (lt_of_lt_of_le hpos h.1) (not_lt.mpr hT))
 
+/-- **T2a′** a table correlation whose range was changed after construction with `set_range` — which checks only the
+order of the bounds, so the new range may exclude the reference temperature, tabulated temperatures or the old bounds —
+reports the new range and raises the range error for every property at every temperature outside it: in particular at
+`T_ref` and at each tabulated temperature the new range no longer contains.  No getter answers before the range it
+reports *now* has been checked. -/
+theorem C06_table_setRange_outside_errors {d d' : RawData} {r : Range} (h : d.setRange r = .ok d') (T : Rat)
+    (hT : ¬ inRange T (some r)) :
+    d'.range = r ∧ d'.CpoR T = .error .outside ∧ d'.HoRT T = .error .outside ∧ d'.SoR T = .error .outside ∧
+    d'.GoRT T = .error .outside := by
+  unfold RawData.setRange at h
+  split at h
+  · cases h
+  · cases h
+    exact ⟨rfl, RawData.outside_err _ hT⟩
+
+/-- … and inside the new range (positive lower end) every property is still a value, whatever the new range excludes. -/
+theorem C06_table_setRange_inside_value {d d' : RawData} {r : Range} (h : d.setRange r = .ok d') (hpos : 0 < r.1) (T : Rat)
+    (hT : inRange T (some r)) :
+    (∃ v, d'.CpoR T = .ok v) ∧ (∃ v, d'.HoRT T = .ok v) ∧ (∃ v, d'.SoR T = .ok v) ∧ (∃ v, d'.GoRT T = .ok v) := by
+  unfold RawData.setRange at h
+  split at h
+  · cases h
+  · cases h
+    have hpos' : 0 < ({ d with range := r } : RawData).range.1 := hpos
+    have hT' : inRange T (some ({ d with range := r } : RawData).range) := hT
+    have eH := (HoRT_in_range hpos' hT').1
+    have eS := SoR_in_range hT'
+    refine ⟨?_, ⟨_, eH⟩, ⟨_, eS⟩, ?_⟩
+    · unfold RawData.CpoR
+      rw [checkRange_ok.mpr hT']
+      split_ifs <;> exact ⟨_, rfl⟩
+    · unfold RawData.GoRT
+      rw [eH, eS]; exact ⟨_, rfl⟩
+
+/-- a reversed range is refused by `set_range` (AssertionError), and the object is then the one it was: there is no new state -/
+theorem C06_table_setRange_reversed (d : RawData) (r : Range) (h : r.2 < r.1) : d.setRange r = .error .assertion := by
+  unfold RawData.setRange
+  rw [if_pos h]
+
 /-- **T2b** a `ThermochemIncomplete`/`ThermochemGroup` that has Cp data, asked for any property outside its
 declared range, raises the incomplete-data error (never a value, never only a warning). -/
 theorem C06_correlation_outside_errors {ip : Interp} {Href Sref : Option Rat} {cp : List Pt} {Tref : Rat} {r : Range}
@@ -210,6 +249,14 @@ example : (match exEst with | .ok e => decide (e.HoRT 460 = (.ok (2 * (1190 / 46
   decide +kernel
 /-- outside (T = 200): the constituent with Cp data raises -/
 example : (match exEst with | .ok e => decide (e.HoRT 200 = (.error .incomplete, false)) | .error _ => false) = true := by decide +kernel
+/-- a table 300..400 K with T_ref = 298 in range (290, 500), narrowed with `set_range((300, 500))`: T_ref is now outside, and
+H/RT at T_ref raises; at 350 K it is still a value -/
+example : (match RawData.mk exIp 2 3 [(300, 3), (400, 4)] 298 (some (290, 500)) with
+    | .ok d => (match d.setRange (300, 500) with
+        | .ok d' => decide (d'.HoRT 298 = .error .outside) && decide (d'.SoR 298 = .error .outside) &&
+                    (match d'.HoRT 350 with | .ok _ => true | .error _ => false)
+        | .error _ => false)
+    | .error _ => false) = true := by decide +kernel
 /-- disjoint ranges: construction rejected -/
 example : (match exInc [] 298 (some (298, 300)), exInc [] 400 (some (400, 500)) with
     | .ok a, .ok b => (match Estimate.mk [(a, 1), (b, 1)] with | .error .assertion => true | _ => false)
